@@ -12,6 +12,7 @@ import (
 	"os"
 	"runtime/pprof"
 	"sort"
+	"strconv"
 	"strings"
 	"time"
 
@@ -107,6 +108,9 @@ func cmdWork(args []string) int {
 		pf, _ := os.Create(*prof)
 		_ = pprof.StartCPUProfile(pf)
 		defer pprof.StopCPUProfile()
+	}
+	if d, err := strconv.Atoi(os.Getenv("VERIF_DEPTH")); err == nil && d >= 1 && d <= 10 {
+		kit.Depth = d
 	}
 	eng := engineFor(*prop, knownSet(*known))
 	if pre, ok := eng.(interface{ Prepare() error }); ok {
